@@ -141,6 +141,10 @@ def find_recombination(
     positions: Sequence[int],
     recombcost: Sequence[int],
 ) -> Sequence[RecombinationEvent]:
+    if len(positions) == 0:
+        # Nothing to report. (The recombination cost computers return [0] even for an empty
+        # list of positions, so the length check below cannot be applied here.)
+        return []
     assert len(transmission_vector) == len(positions) == len(recombcost)
     assert set(components.keys()).issubset(set(positions))
     position_to_index = {pos: i for i, pos in enumerate(positions)}
